@@ -536,6 +536,22 @@ def oracle(spec_t, expr, pop, seed, res=None, determinism=True):
         hits.append(('C14/composition/base.%s/dead-object-id' % ('Difference' if expr[0] == 6 else 'Intersection'),
                      'x %s y over operands returning only new objects gave %d items instead of %d: ids of objects that no longer exist are compared'
                      % ('-' if expr[0] == 6 else '&', len(res['result']), want)))
+    # segment-wise crossover moves every independent top-level position as a whole (SegmentWise docstring):
+    # each top-level decision of a child (each sub-choice of an unconstrained multi-choice) is x's or y's
+    if expr[0] == 0 and expr[1][0] == 2 and expr[1][1][0] in (1, 2) and len(pop) == 2 and all(x[0] == 'd' for x in pop):
+      xs, ys = pop[0][2], pop[1][2]
+      for c in news:
+        sd = sdna_of(spec_t, c)
+        if sd is None: continue
+        for p, cx, px, py in zip(spec_t[1], sd, xs, ys):
+          split = p[0] == 'C' and p[1] > 1 and not (p[3] or p[4])
+          ok = all(scmp([('c', [u])], [('c', [a])]) == 0 or scmp([('c', [u])], [('c', [b])]) == 0 for u, a, b in zip(cx[1], px[1], py[1])) if split \
+              else (scmp([cx], [px]) == 0 or scmp([cx], [py]) == 0)
+          if not ok:
+            hits.append(('C14/segment-integrity/%s/subtree-split' % opk,
+                         'a child of a segment-wise crossover has a top-level decision that is neither parent\'s: an interdependent group was cut')); break
+        else: continue
+        break
     if expr[0] == 0 and expr[1][0] == 0 and all(x[0] == 'd' for x in pop):
       want = doc_count(expr[1][1], pop)
       if len(res['result']) != want:
@@ -822,12 +838,22 @@ def run(ctx):
         ctx.hit(sig, what, d)
 
 def process_case(c):
-  """One case in a worker process: run the implementation with the recorder, evaluate the oracle."""
-  res = impl_run(c['spec'], c['expr'], c['pop'], c['seed'])
+  """One case in a worker process: run the implementation with the recorder, evaluate the oracle.  Never raises:
+  whatever the library does on an input inside the property's quantifier is an outcome / an oracle hit with the case as replay."""
   names = prim_names(c['expr'])
+  try:
+    res = impl_run(c['spec'], c['expr'], c['pop'], c['seed'])
+  except Exception as e:   # pylint: disable=broad-except
+    return dict(out=None, draws=[], hists=[('outcome', 'driver-exception:' + type(e).__name__)], nontrivial=False, contract=(0, []),
+                hits=[('C14/raises/driver/%s' % msg_key(e), 'building the objects of the case or observing the result raises %s: %s\n%s'
+                       % (type(e).__name__, str(e)[:200], traceback.format_exc()[-600:]))])
   hists = [('primitives', n) for n in set(names)] + [('expression_depth', depth_of(c['expr'])), ('population_size', len(c['pop'])),
            ('draws', min(len(res['draws']), 20)), ('outcome', 'exception:' + type(res['exc']).__name__ if res['exc'] is not None else 'ok')]
-  hits = oracle(c['spec'], c['expr'], c['pop'], c['seed'], res=res, determinism=c.get('det', True))
+  try:
+    hits = oracle(c['spec'], c['expr'], c['pop'], c['seed'], res=res, determinism=c.get('det', True))
+  except Exception as e:   # pylint: disable=broad-except
+    hits = [('C14/raises/oracle/%s' % msg_key(e), 'evaluating the property on the result raises %s: %s\n%s'
+             % (type(e).__name__, str(e)[:200], traceback.format_exc()[-600:]))]
   nt = (any(not n.startswith('selectors.') and n != 'Lambda' for n in names) and len(res['draws']) > 0) or (len(c['pop']) >= 2 and bool(names))
   return dict(out=res['out'], draws=res['draws'], hits=hits, hists=hists, nontrivial=nt, contract=res['contract'])
 
